@@ -337,6 +337,7 @@ impl MessageDecoder {
 |error: StunError| -> (e: StunDecodeError)
     ensures true,
 //@stmt "let mut iter ="
+    proof { lemma_bitops_commute(); }
     let ghost b = buffer@;
     let ghost body = attributes.0@;
     let ghost mut sts: Seq<int> = Seq::empty();
